@@ -65,6 +65,13 @@ TRefused ==
     /\ ~CanExtend(toks[Rec[l].from].tok)
     /\ UNCHANGED toks
 
+\* a third-party request was handed out: only unsealed tokens give one
+TRequest ==
+    /\ IsEvent("request")
+    /\ Rec[l].from \in 1..Len(toks)
+    /\ CanExtend(toks[Rec[l].from].tok)
+    /\ UNCHANGED toks
+
 \* serialize + deserialize (any entry point): the same abstract token
 TReload ==
     /\ IsEvent("reload")
@@ -72,7 +79,7 @@ TReload ==
     /\ Rec[l].tok = toks[Rec[l].from].tok
     /\ UNCHANGED toks
 
-TraceNext == TReset \/ TBuild \/ TAppend \/ TAppendTP \/ TSeal \/ TRefused \/ TReload
+TraceNext == TReset \/ TRequest \/ TBuild \/ TAppend \/ TAppendTP \/ TSeal \/ TRefused \/ TReload
 
 TraceSpec == TraceInit /\ [][TraceNext]_tvars
 
